@@ -100,6 +100,11 @@ func RunC08(t *testing.T, plan *Plan, st *core.Stream, extra Extra, keepLog bool
 			w.c08 = state
 			url := "http://" + hostFor(sp.Name, 0, 0)
 			cl := jrpc2.New(url).WithMaxReads(cs.MaxReads).WithPollDuration(time.Duration(cs.PollMs) * time.Millisecond)
+			if sp.WS && cs.HeadMode {
+				// heads pushed over a subscription instead of being polled
+				cl = cl.WithWSURL("ws://" + hostFor(sp.Name, 0, 0))
+				res.Stats["c08_ws_mode"] = 1
+			}
 			plain := jrpc2.New("http://" + hostFor(sp.Name, 0, 1) + "/?nocache=1") // the uncached reference client
 			_ = plain
 			var wg sync.WaitGroup
@@ -479,6 +484,9 @@ func GenC08(seed uint64) *Plan {
 	p.Content = ContentPlan{TxMax: 2, MinTx: 1, LogMax: 3, EmptyPct: 0, Events: []EventSpec{{Event: transferEvent()}},
 		Addrs: []string{"0x00000000000000000000000000000000000000a1", "0x00000000000000000000000000000000000000a2", "0x00000000000000000000000000000000000000a3"}}
 	cs := &C08Case{MaxReads: g.between(1, 6), PollMs: g.pickInt([]int{100, 500, 1000}), HeadMode: g.chance(35)}
+	if cs.HeadMode {
+		p.Sources[0].WS = g.chance(40)
+	}
 	nc := g.between(2, 6)
 	// a few hot ranges so that callers collide on segments
 	type rng struct{ s, l uint64 }
